@@ -31,6 +31,7 @@ def optField {α} (j : Json) (k : String) (f : Json → Except String α) : Exce
 def errName : PyErr → String
   | .unexpectedMessage => "UnexpectedMessageError" | .valueError => "ValueError" | .typeError => "TypeError"
   | .indexError => "IndexError" | .keyError => "KeyError" | .attributeError => "AttributeError" | .exception => "Exception"
+  | .structError => "error"
 
 /-! ### HTTP -/
 def httpMsgOfJson (j : Json) : Except String (Option Http.Msg) := do
@@ -146,7 +147,21 @@ def wsMsgOfJson (j : Json) : Except String (Option Ws.Msg) := do
   | "resp_start" => pure (some (.respStart (← optField j "status" (·.getNat?)) (← optField j "headers" hvPairs)))
   | "resp_body" => pure (some (.respBody (← optField j "body" hvOfJson) ((← optField j "more" (·.getBool?)).getD false)))
   | "send" => pure (some (.send (← optField j "bytes" hvOfJson) (← optField j "text" hvOfJson)))
-  | "close" => pure (some (.close (← optField j "code" (·.getNat?))))
+  | "close" =>
+    -- "code": {"i": n} = the value of `int(code)`, {"err": class} = `int(code)` raised; absent = no `code` key
+    let code : Ws.CloseCode ← match j.getObjVal? "code" with
+      | .error _ => pure .absent
+      | .ok c => match c.getObjVal? "err" with
+        | .ok e => do
+          let n ← e.getStr?
+          match n with
+          | "ValueError" => pure (.refused .valueError)
+          | "TypeError" => pure (.refused .typeError)
+          | _ => throw s!"close code error class {n}"
+        | .error _ => match c.getInt? with
+          | .ok n => pure (.int n)
+          | .error _ => do pure (.int (← (← c.getObjVal? "i").getInt?))
+    pure (some (.close code (← optField j "reason" hvOfJson)))
   | _ => pure (some .other)
 
 def wsEvOfJson (j : Json) : Except String Ws.WsEv := do
